@@ -266,6 +266,10 @@ Definition hidden (name : str) : bool :=
   | _ => false
   end.
 
+(* a directory entry as the operating system returns it contains no '/'; an oracle answer that does is not a
+   directory entry (treated like an answer of the wrong kind) *)
+Definition has_slash (n : str) : bool := existsb (Z.eqb 47) n.
+
 Fixpoint dir_loop (fuel : nat) (cfg : config) (path : str) : M bool :=
   match fuel with
   | O => emit ModelErr ;;; ret false
@@ -274,6 +278,7 @@ Fixpoint dir_loop (fuel : nat) (cfg : config) (path : str) : M bool :=
       match e with
       | Some EEnd => ret true
       | Some (EName n) =>
+          if has_slash n then emit ModelErr ;;; ret false else
           st <- fs_call (FStat (path ++ [47] ++ n)) ;;
           match st with
           | Some (EStat isdir size ct at_ mt) =>
